@@ -2,7 +2,8 @@
 alternatives mean OR."""
 import ast
 
-from ..analysis import PROPERTY_TEXT, self_attr
+from ..analysis import PROPERTY_TEXT, path_text, self_attr
+from ..cfg import reachable_without_edges
 from ..const import Regex, Unfoldable
 from ..index import AnalysisError, norm
 from ..report import rule
@@ -64,6 +65,31 @@ def _valid_upper(A, f):
     return min(uppers) if uppers else None
 
 
+def _valid_lower(A, f):
+    """inclusive lower bound accepted by hours_valid / minutes_valid"""
+    lowers = []
+    for r in walk_own(f.node):
+        if not (isinstance(r, ast.Return) and r.value is not None):
+            continue
+        for c in ast.walk(r.value):
+            if not isinstance(c, ast.Compare):
+                continue
+            comps = [c.left] + c.comparators
+            for i, op in enumerate(c.ops):
+                lk, rk = A.try_fold(comps[i], f), A.try_fold(comps[i + 1], f)
+                if isinstance(lk, int) and not isinstance(rk, int):
+                    if isinstance(op, ast.LtE):
+                        lowers.append(lk)
+                    elif isinstance(op, ast.Lt):
+                        lowers.append(lk + 1)
+                elif isinstance(rk, int) and not isinstance(lk, int):
+                    if isinstance(op, ast.GtE):
+                        lowers.append(rk)
+                    elif isinstance(op, ast.Gt):
+                        lowers.append(rk + 1)
+    return max(lowers) if lowers else None
+
+
 def _digit_strings(A, f):
     out = []
     for n in walk_own(f.node):
@@ -98,6 +124,10 @@ def r11a(R):
                                          field, want) if (up or 0) > want else
                 '%s rejects valid %ss (bound %s, expected %d)'
                 % (valid, field, up, want))
+        lo = _valid_lower(A, vf)
+        R.check(vf, '%s: lower bound %s' % (valid, lo), lo in (0, None),
+                '%s rejects %s 0 (lower bound %s): a valid pattern such as '
+                '0:30 / 8:00 does not compile' % (valid, field, lo))
         inf = tp.methods[init]
         ups = [_upper_of_range(A, inf, n) for n in walk_own(inf.node)
                if isinstance(n, ast.Call) and norm(n.func) == 'range']
@@ -452,3 +482,103 @@ def r11g(R):
                     line=c.lineno)
     if n == 0:
         raise AnalysisError('R11.g: no pattern match against the clock found')
+
+
+@rule('R11.j', ('C11',), 'a pattern is valid only if both fields are; a copy '
+      'carries everything match() reads', floor=3,
+      decides='patterns that could match no time are rejected at compile '
+              'time; using a pattern (a copy is what the VM waits on) never '
+              'changes what it matches')
+def r11j(R):
+    A = R.A
+    tp = A.cls(TIMEPAT, 'TimePattern')
+    pv = tp.methods['patterns_valid']
+    cfg = A.cfg(pv)
+    need = {'TimePattern.hours_valid', 'TimePattern.minutes_valid'}
+    ok = True
+    n_ret = 0
+    for r in cfg.return_nodes():
+        if A.ret_class(pv, r)[0] == 'fail':
+            continue
+        n_ret += 1
+        have = set()
+        for text, truth in A.path_facts(pv, r):
+            if truth:
+                for x in need:
+                    if x.split('.')[1] + '(' in text:
+                        have.add(x)
+        if isinstance(r.ret_expr, ast.Call):
+            have |= set(A.callee_names(pv, r.ret_expr)) & need
+        if have != need:
+            ok = False
+    R.check(pv, 'valid = hours_valid and minutes_valid', ok and n_ret > 0,
+            'a pattern is accepted although one of its two fields is invalid '
+            '(the validators are not both required): e.g. 24:00 or 8:75 '
+            'compiles and can never match')
+    # from_string validates before it constructs
+    fs = tp.methods['from_string']
+    fcfg = A.cfg(fs)
+    ctor = [n for n in fcfg.nodes for c in n.calls()
+            if norm(c.func) in ('TimePattern', 'cls')]
+    val = [n for n in fcfg.nodes if n.kind == 'cond' and any(
+        'TimePattern.patterns_valid' in A.callee_names(fs, c) for c in n.calls())]
+    ok = bool(ctor and val) and all(
+        c.id not in reachable_without_edges(fcfg, fcfg.entry, {(v.id, True) for v in val})
+        for c in ctor)
+    R.check(fs, 'from_string: constructed only after patterns_valid()', ok,
+            'a pattern object is built from fields that were not validated')
+    # copy(): every attribute match()/union() read is carried over from self
+    read = set()
+    for m in (tp.methods['match'], tp.methods['union']):
+        for n in walk_own(m.node):
+            if isinstance(n, ast.Attribute) and isinstance(n.ctx, ast.Load) \
+                    and isinstance(n.value, ast.Name) and n.value.id == 'self':
+                if n.attr in tp.instance_attr_names():
+                    read.add(n.attr)
+    cp = tp.methods['copy']
+    carried = set()
+    for n in walk_own(cp.node):
+        if isinstance(n, ast.Assign) and isinstance(n.targets[0], ast.Attribute) \
+                and not self_attr(n.targets[0]) \
+                and any(self_attr(x) == n.targets[0].attr for x in ast.walk(n.value)):
+            carried.add(n.targets[0].attr)
+    R.check(cp, 'copy() carries %s' % sorted(read), bool(read) and read <= carried,
+            'copy() does not carry over %s: the copy the VM waits on matches '
+            'nothing (or not what the original matches)'
+            % sorted(read - carried))
+
+
+@rule('R11.k', ('C11',), 'every form of a field produces its set of matching '
+      'values', floor=2,
+      decides='a pattern matches exactly the times it denotes - also the '
+              'plain one-digit hour of `8:00`')
+def r11k(R):
+    A = R.A
+    tp = A.cls(TIMEPAT, 'TimePattern')
+    for mname, attr in (('_init_hour_set', '_hour_set'),
+                        ('_init_minute_set', '_minute_set')):
+        m = tp.methods[mname]
+        cfg = A.cfg(m)
+        cover = []
+        for n in cfg.nodes:
+            if n.kind == 'stmt' and isinstance(n.ast, ast.Assign) and any(
+                    self_attr(t) == attr for t in n.ast.targets):
+                v = n.ast.value
+                empty = (isinstance(v, ast.Call) and norm(v.func) == 'set'
+                         and not v.args) or (isinstance(v, (ast.Set, ast.List))
+                                             and not getattr(v, 'elts', [1]))
+                if not empty:
+                    cover.append(n)
+            if n.kind == 'for' and any(
+                    isinstance(x, ast.Call) and isinstance(x.func, ast.Attribute)
+                    and x.func.attr in ('add', 'update')
+                    and self_attr(x.func.value) == attr
+                    for x in ast.walk(n.ast)):
+                cover.append(n)
+        p = cfg.find_path([cfg.entry], lambda n: n is cfg.exit, avoid=cover)
+        R.check(m, '%s: every form fills %s' % (mname, attr),
+                bool(cover) and p is None,
+                '%s can return without putting any value into %s: a field of '
+                'that form (e.g. the one-digit hour of 8:00) matches nothing '
+                'and the script waits for ever' % (mname, attr),
+                path=path_text(p) if p else None)
